@@ -599,9 +599,15 @@ def addTemplateDirOld (d : Lookup) (listing : List Tpl) : Option Lookup := addTe
 
 /-! ## 7. hunter round: extension load order, repr of a live set, the docutils `date` directive -/
 
-/-- extensions._get_submodules / get_extensions:
+/-- extensions._get_submodules / get_extensions BEFORE /repo 2786e75: the names were taken in the order
+`files(pkg).iterdir()` listed them.  Kept for the record only (`getExtensions_listing_counterexample_old`). -/
+def getExtensionsOld (listing : List (Name × Bool)) : List Name :=
+  listing.filterMap (fun e =>
+    if e.1.head? ≠ some 95 ∧ e.2 = true ∧ endsWith e.1 [46, 112, 121] then some (e.1.take (e.1.length - 3)) else none)
+
+/-- extensions._get_submodules / get_extensions (at /repo 2786e75):
 ```
-for name in _importlib_resources_contents(pkg):          # [path.name for path in files(pkg).iterdir()] - NOT sorted
+for name in sorted(_importlib_resources_contents(pkg)):   # [path.name for path in files(pkg).iterdir()], sorted
     if (not name.startswith('_') and _importlib_resources_is_resource(pkg, name)) and name.endswith('.py'):
         yield f"{pkg}.{name[:-len('.py')]}"
 ```
@@ -609,12 +615,7 @@ for name in _importlib_resources_contents(pkg):          # [path.name for path i
 result is the order in which System.__init__ loads the built-in extensions (mixins, AST visitor extensions,
 post-processors are registered in that order). -/
 def getExtensions (listing : List (Name × Bool)) : List Name :=
-  listing.filterMap (fun e =>
-    if e.1.head? ≠ some 95 ∧ e.2 = true ∧ endsWith e.1 [46, 112, 121] then some (e.1.take (e.1.length - 3)) else none)
-
-/-- the proposed repair (fixes/C18-extension-load-order-sorted.diff): `for name in sorted(...)` -/
-def getExtensionsSorted (listing : List (Name × Bool)) : List Name :=
-  getExtensions (sortedWith lexLe (·.1) listing)
+  getExtensionsOld (sortedWith lexLe (·.1) listing)
 
 /-- AST visitor extensions registered with the same timing run in the order they were loaded; each of attrs
 (`_handleAttrsAssignmentInClass`: kind = INSTANCE_VARIABLE) and zopeinterface
@@ -624,16 +625,17 @@ recognises: the last one loaded wins.  `claims` = for each loaded extension, in 
 def kindAfterVisitors (initial : Nat) (claims : List (Option Nat)) : Nat :=
   claims.foldl (fun k c => match c with | some k' => k' | none => k) initial
 
-/-- model._EscapedRepr.__repr__ on a live `set` of strs (a set default of an introspected signature):
-`html.escape(repr(value))`; `repr` of a set walks it in the interpreter's enumeration order. `enum` = that order,
-each element already as its own repr. -/
-def setRepr (enum : List Name) : Name :=
+/-- model._EscapedRepr.__repr__ on a live `set` BEFORE /repo 828eb1f: `repr(value)`, which walks the set in the
+interpreter's enumeration order. `enum` = that order, each element as its own repr.  Historical. -/
+def setReprOld (enum : List Name) : Name :=
   match enum with
   | [] => [115, 101, 116, 40, 41]                                 -- "set()"
   | _ => [123] ++ join [44, 32] enum ++ [125]                      -- "{a, b}"
 
-/-- the proposed repair (fixes/C18-introspected-set-default-sorted.diff): elements sorted by their repr -/
-def setReprSorted (enum : List Name) : Name := setRepr (sorted enum)
+/-- model._stable_repr on a live `set` (at /repo 828eb1f; `_EscapedRepr.__repr__` escapes its result):
+`'{' + ', '.join(sorted(_stable_repr(v) for v in value)) + '}'`, `repr(value)` for the empty set.
+`enum` = the interpreter's enumeration, each element as its own (stable) repr. -/
+def setRepr (enum : List Name) : Name := setReprOld (sorted enum)
 
 /-- the time a reStructuredText docstring shows through docutils' `date` directive
 (docutils.parsers.rst.directives.misc.Date.run of the installed docutils: `text = time.strftime(format_str)`; its
